@@ -46,6 +46,77 @@ example : Spec.rel .in_ (.atom (.str ['a'])) (.list [.str ['a'], .str ['b']]) = 
 example : denoteTemplate "{0} < {1}".toList (.atom (.int 5)) (.atom (.int 5)) ≠
     Spec.rel .le (.atom (.int 5)) (.atom (.int 5)) := by decide
 
+/-! ### the glob relation (round 2): what the model's `glob` — the relation both sides of
+`op_table_correct` use for `op: glob`, compared with the real `c7nlib.glob` by the `clause` stream — accepts,
+for ALL texts. A shortcut for a sub-domain of patterns (prefix / suffix / infix / equality tests) is
+right exactly under the hypothesis `p.all isGlobPlain`: no `*`, `?` or `[` inside the stem. -/
+
+/-- the `glob` entry of the regenerated table denotes `glob text pattern` with the resource attribute as
+the text and the policy literal as the pattern -/
+theorem glob_clause_decision (p : String × String) (hp : p ∈ XlateTables.atomicOpMap) (hn : p.1 = "glob")
+    (t pat : Str) :
+    denoteTemplate p.2.toList (.atom (.str t)) (.atom (.str pat)) = glob t pat := by
+  rw [op_table_correct p hp .glob (by rw [hn]; decide)]
+  rfl
+
+/-- a pattern without wildcard characters accepts exactly its own text -/
+theorem glob_literal (p t : Str) (hp : p.all isGlobPlain = true) : glob t p = some (decide (t = p)) := by
+  simp [glob, parseGlob_plain p hp, globItems_lits]
+
+/-- `*` accepts every text -/
+theorem glob_star_all (t : Str) : glob t ['*'] = some true := by
+  simp [glob, parseGlob, parseGlobGo, globItems_star_true]
+
+/-- `stem*` accepts exactly the texts that start with the stem -/
+theorem glob_prefix (p t : Str) (hp : p.all isGlobPlain = true) :
+    glob t (p ++ ['*']) = some (p.isPrefixOf t) := by
+  simp [glob, parseGlob_plain_star p hp, globItems_lits_star]
+
+/-- `*stem` accepts exactly the texts that end with the stem -/
+theorem glob_suffix (p t : Str) (hp : p.all isGlobPlain = true) :
+    glob t ('*' :: p) = some (p.isSuffixOf t) := by
+  simp [glob, parseGlob_star_plain p hp, globItems_star_lits]
+
+/-- `*stem*` accepts exactly the texts that contain the stem -/
+theorem glob_infix (p t : Str) (hp : p.all isGlobPlain = true) :
+    glob t ('*' :: (p ++ ['*'])) = some (isInfix p t) := by
+  simp [glob, parseGlob_star_plain_star p hp, globItems_star_lits_star]
+
+/-- a class after a stem: `stem[abc]` accepts `stem ++ [c]` iff `c` is one of the listed characters, and
+`stem[!abc]` iff it is not — for every stem without wildcards, every class of plain members and every `c`
+(so such a pattern is NOT the prefix / equality test on its own text) -/
+theorem glob_stem_class (p cs : Str) (c : Char) (hp : p.all isGlobPlain = true)
+    (hcs : cs.all isClassPlain = true) (hne : cs ≠ []) :
+    glob (p ++ [c]) (p ++ '[' :: (cs ++ [']'])) = some (cs.contains c) ∧
+    glob (p ++ [c]) (p ++ '[' :: '!' :: (cs ++ [']'])) = some (!cs.contains c) := by
+  constructor
+  · have h := parseGlobGo_plain p hp ('[' :: (cs ++ [']']))
+    rw [parseGlobGo_class cs [] hcs hne] at h
+    simp only [parseGlobGo, Option.map_some] at h
+    simp [glob, parseGlob, h, globItems_lits_append, globItems, set_singles_matches]
+  · have h := parseGlobGo_plain p hp ('[' :: '!' :: (cs ++ [']']))
+    rw [parseGlobGo_negclass cs [] hcs hne] at h
+    simp only [parseGlobGo, Option.map_some] at h
+    simp [glob, parseGlob, h, globItems_lits_append, globItems, set_singles_matches]
+
+/-- the same in front of a trailing `*`: `stem[abc]*` accepts `stem ++ c :: u` iff `c` is listed, whatever
+follows -/
+theorem glob_stem_class_star (p cs u : Str) (c : Char) (hp : p.all isGlobPlain = true)
+    (hcs : cs.all isClassPlain = true) (hne : cs ≠ []) :
+    glob (p ++ c :: u) (p ++ '[' :: (cs ++ [']', '*'])) = some (cs.contains c) := by
+  have h := parseGlobGo_plain p hp ('[' :: (cs ++ [']', '*']))
+  have h2 := parseGlobGo_class cs ['*'] hcs hne
+  rw [h2] at h
+  simp only [parseGlobGo, Option.map_some] at h
+  simp [glob, parseGlob, h, globItems_lits_append, globItems, set_singles_matches,
+    any_range_succ_of _ _ u.length (Nat.le_refl _)]
+
+/-- hypotheses are satisfiable; the class reading and the plain reading differ (seeded change C19-m6) -/
+example : glob (lit "i-5") (lit "i-[0-9]") = some true ∧ glob (lit "i-[0-9]") (lit "i-[0-9]") = some false ∧
+    glob (lit "i-7abc") (lit "i-[0-9]*") = some true ∧ glob (lit "node-c") (lit "*-[ab]") = some false ∧
+    glob (lit "a[b") (lit "a[b") = some true ∧ glob (lit "x") (lit "[z-a]") = none := by decide
+example : (lit "i-").all isGlobPlain = true ∧ (lit "0123").all isClassPlain = true := by decide
+
 /-- clauses without an op. Full statement: `∀ w r, Spec.word w r = some b → the emitted clause decides b`.
 Proved part: `not-null` and `empty` on every attribute value; `present` and `absent` on every value that is
 null or truthy. Missing: `present`/`absent` on an attribute that is there but falsy — the translator sends
